@@ -260,7 +260,7 @@ def main(argv):
             keys = max(1, int(4 * a.scale))
         else:
             cfgs = (a.configs.split(",") if a.configs else ["default", "w32", "avx2"])
-            keys = max(1, int(40 * a.scale))
+            keys = max(1, int(300 * a.scale))
         exes = build_many(cfgs)
         m = run_sharded("c16", "gen", (keys, a.tier == "quick"), [(c, exes[c]) for c in cfgs], a.seed, timeout=7200)
         rep.merge(m)
